@@ -303,9 +303,12 @@ fn branch_doc(trivia: &Trivia, branch: &Branch, multi_branch: bool) -> Doc {
 /// continuation would otherwise dangle at the bar indent, reading like a new step. The brace block is
 /// a frame-free single chain, which both the compiler and the formatter's own strip pass remove —
 /// so this render-time wrap is bytecode-neutral and idempotent. `body` is the already-rendered doc.
+/// A chain that binds or matches is left bare: a block around it is *not* a no-op (it scopes the
+/// binding and is a narrowing barrier), so neither the compiler nor the strip pass would remove it.
 fn wrap_breaking_body(sequence: &Sequence, body: Doc, multi_branch: bool) -> Doc {
     let breaking_pipeline = matches!(sequence.chains.as_slice(), [chain]
-        if chain.terms.last().is_some_and(|term| !is_breakable_container(term)));
+        if chain.terms.last().is_some_and(|term| !is_breakable_container(term))
+            && crate::simplify::is_frame_free_chain(chain));
     if multi_branch && breaking_pipeline && pretty::forces_break(&body) {
         pretty::concat(vec![
             pretty::text("{"),
